@@ -30,7 +30,10 @@ def run(ck):
     # same parameters, different seed
     l2 = []
     for i, c in enumerate(cases):
-        s2 = bytes((b % 255) + 1 for b in hashlib.md5(c.seed).digest())
+        # the second seed shares everything but its LAST byte with the first when the seed is long (every byte must count)
+        s2 = (c.seed[:-1] + bytes([(c.seed[-1] % 255) + 1])) if len(c.seed) >= 8 and i % 2 == 0 else bytes((b % 255) + 1 for b in hashlib.md5(c.seed).digest())
+        if s2 == c.seed:
+            s2 = c.seed + b"x"
         l2.append("f%d enc %d %d %d %s %s %s" % (i, c.cm, c.hm, c.T, c.key.hex(), s2.hex(), wv.hexs(c.plain)))
     impl = wv.run_lines([exe], lines + l2, env=env)
     dist = ck.cov.setdefault("case_classes", {})
